@@ -7,6 +7,7 @@ import LLFreeV.Model.Policies
 import LLFreeV.Model.Eval
 import LLFreeV.Model.Conc
 import LLFreeV.Model.Wrapper
+import LLFreeV.Model.Bounds
 open LLFree
 
 structure St where
@@ -367,6 +368,11 @@ def step (st : St) (line : String) : St × String :=
         let (st, r) := run st (Lower.recover c.geom c.ntrees c.nhuge)
         (st, outStr (fun _ => "ok") r)
       | "handoff", [] => (st, "ok")
+      | "solocheck", [n] =>
+        -- C21: accesses a frozen-out thread needed to finish its call, against the proved bound
+        match n.toNat? with
+        | some n => (st, if n ≤ apiB c then "within" else s!"exceeds {apiB c}")
+        | none => (st, "bad-op")
       | "hash", [] => (st, "hash " ++ toHex st.mem.digest.toNat)
       | "dump", [] => (st, dumpStr st.mem)
       | _, _ =>
